@@ -1,8 +1,18 @@
 """C19 — new metrics get the first matching storage schema and aggregation policy."""
 import os
+import shutil
 
-from vp_lib.api import H, cover, pick, scratch_dir
-from vp_lib import cachelab as K
+from crosshair.tracers import NoTracing
+from crosshair.core import realize
+
+from vp_lib.api import H, cover, pick, scratch_dir, FIXTURES
+
+# private CONF_DIR: C19_writer_reload rewrites the live storage-schemas.conf / storage-aggregation.conf
+_LIVE = scratch_dir('vp-c19-conf-')
+shutil.copyfile(os.path.join(FIXTURES, 'conf', 'storage-schemas.conf'), os.path.join(_LIVE, 'storage-schemas.conf'))
+os.environ['VP_CONF_DIR'] = _LIVE
+
+from vp_lib import cachelab as K  # noqa: E402
 from vp_lib import writerlab as W
 
 import carbon.storage as storage  # noqa: E402
@@ -248,7 +258,82 @@ def C19_reload(p1: int, p2: int, p3: int) -> bool:
           and [s.name for s in again[:-1]] == ['sec_%d' % i for i in PERMS[p3]])
 
 
+SCHEMA_PATTERNS = ['^a\\.', 'b$', 'c', '.*', '^collectd\\.|\\.latency$', '^(x|y)\\.', '\\.count$|^stats', '^$', 'A', '^a']
+SCHEMA_METRICS = ['a.b', 'x.a.b', 'apps.web.latency', 'collectd.cpu', 'my.collectd.cpu', 'stats.x', 'x.stats', 'q.count', 'y.z', 'zy.z', '', 'A.c', 'xa']
+
+
+def C19_pattern_match(pi: int, mi: int, agg: bool) -> bool:
+  """
+  pre: 0 <= pi < len(SCHEMA_PATTERNS)
+  pre: 0 <= mi < len(SCHEMA_METRICS)
+  post: __return__
+  """
+  # a section matches a metric iff its pattern, as a regular expression, is found anywhere in the name
+  # (anchors and alternations as written; case-sensitive), for storage-schemas and storage-aggregation alike
+  import re
+  pattern, metric = pick(SCHEMA_PATTERNS, pi), pick(SCHEMA_METRICS, mi)
+  s = PatternSchema('sec', pattern, (0.5, 'sum') if agg else ARCHIVES[0])
+  cover('asked')
+  return bool(s.matches(metric)) == (re.search(pattern, metric) is not None)
+
+
+_MTIMES = [500, 2000]          # the replacement file is older (restored backup, rsync -t) or newer than the one loaded
+
+
+def C19_writer_reload(cfg: int) -> bool:
+  """
+  pre: 0 <= cfg < 144
+  post: __return__
+  """
+  # the writer's periodic reload: after the config file has been replaced (whatever its timestamp), the
+  # lists new metrics are matched against follow the file that is on disk
+  cfg = realize(cfg)                      # one concrete configuration per path: (first file, replacement, older/newer, which file)
+  p1, p2, mi, agg = cfg % 6, (cfg // 6) % 6, (cfg // 36) % 2, (cfg // 72) == 1
+  which = 1 if agg else 0
+  live = storage.STORAGE_AGGREGATION_CONFIG if agg else storage.STORAGE_SCHEMAS_CONFIG
+  if not live.startswith(_LIVE):
+    raise LookupError('live config path not under the private CONF_DIR: %r' % live)
+  reload_fn = W.writer.reloadAggregationSchemas if agg else W.writer.reloadStorageSchemas
+  with NoTracing():              # every input is concrete from here on
+    return _writer_reload(p1, p2, mi, agg, which, live, reload_fn)
+
+
+def _writer_reload(p1, p2, mi, agg, which, live, reload_fn):
+  old_log = W.writer.log
+  W.writer.log = W.CountingLog()
+  try:
+    shutil.copyfile(_PFILES[p1][which], live)
+    os.utime(live, (1000, 1000))
+    reload_fn()
+    first = [s.name for s in (W.writer.AGGREGATION_SCHEMAS if agg else W.writer.SCHEMAS)[:-1]]
+    reload_fn()                                                  # an untouched file: nothing changes
+    shutil.copyfile(_PFILES[p2][which], live)
+    os.utime(live, (_MTIMES[mi], _MTIMES[mi]))
+    reload_fn()
+    second = [s.name for s in (W.writer.AGGREGATION_SCHEMAS if agg else W.writer.SCHEMAS)[:-1]]
+  finally:
+    W.writer.log = old_log
+    W.restore()
+    if agg:
+      os.remove(live)
+    else:
+      shutil.copyfile(os.path.join(FIXTURES, 'conf', 'storage-schemas.conf'), live)
+  cover('reloaded')
+  if first != ['sec_%d' % i for i in PERMS[p1]]:
+    return False
+  if second != ['sec_%d' % i for i in PERMS[p2]]:
+    raise AssertionError('after the file was replaced (mtime %d vs 1000) the writer still matches against %r' % (_MTIMES[mi], second))
+  return True
+
+
 HARNESSES = [
+  H('C19_pattern_match', quick=dict(timeout=200), covers=['asked'],
+    encodes=['carbon.storage:PatternSchema.__init__ / test / Schema.matches'],
+    assumptions=['%d patterns (anchored, unanchored, alternations mixing both, case) x %d metric names, symbolic indices; real `re`' % (len(SCHEMA_PATTERNS), len(SCHEMA_METRICS))]),
+  H('C19_writer_reload', quick=dict(timeout=200), covers=['reloaded'],
+    encodes=['carbon.writer:reloadStorageSchemas / reloadAggregationSchemas', 'carbon.storage:loadStorageSchemas / loadAggregationSchemas'],
+    assumptions=['the live config file of a private CONF_DIR is replaced by another permutation of three sections with an older or a newer mtime (symbolic), '
+                 'then the writer\'s reload function runs; 6 x 6 permutations, both files']),
   H('C19_reload', quick=dict(timeout=280, shards=[('p%d' % k, 'p1 == %d' % k) for k in range(len(PERMS))]), covers=['loaded'],
     encodes=['carbon.storage:loadStorageSchemas', 'carbon.storage:loadAggregationSchemas', 'carbon.conf:OrderedConfigParser (state across instances / reloads)'],
     assumptions=['three loads in one process: schema file, aggregation file, re-written schema file; the same three section names in symbolic orders (6 permutations each)']),
